@@ -20,22 +20,22 @@ PROP = "C09"
 READY = True
 DRIVER = "dm_graph"
 LEAN_MODULES = ["DaskModel.Props.C09"]
-LEVEL_TEXT = ("Lean 4 theorems for `cull` (dask/optimization.py) over a transliteration of get_dependencies/keys_in_tasks, cull's "
-              "work-list and the legacy evaluator, for every graph and key list: cull_keeps_requested, cull_subgraph, cull_closed, "
-              "cull_deps_match (returned dependency map = get_dependencies recomputed in the returned graph), "
-              "cull_preserves_eval (every kept key denotes the same value). Against the real evaluation (dask.core.get) the "
-              "statement is REFUTED for the code as it is (cull_preserves_get_refuted: a reference hidden in a non-task tuple is "
-              "culled; same root cause changes values under inline_functions/fuse_linear/fuse; known findings). For the "
-              "substitution-based passes the building blocks are proved for all inputs: subs_preserves_eval (the substitution "
-              "lemma for dask.core.subs), inline_step_preserves_solutions (substituting a key's definition into one task keeps "
-              "exactly the same solutions of the graph's equations), drop_unreferenced_preserves_values, dag_values_unique. "
-              "PARTIAL: that inline, inline_functions, fuse_linear and fuse (parameter grid, renamers) are compositions of these "
-              "steps, and the task-spec passes (cull, fuse_linear_task_spec, Task.fuse, resolve_aliases, substitute), are "
-              "VALIDATED on every run (requested keys present, values equal under dask.core.get, returned dependency map = "
-              "get_dependencies of the returned graph), not proved.")
+LEVEL_TEXT = ("Lean 4 theorems over transliterations of get_dependencies/keys_in_tasks, dask.core.subs and dask.optimization.cull "
+              "plus the legacy evaluator. cull: FULL w.r.t. the legacy semantics (cull_keeps_requested, cull_subgraph, cull_closed, "
+              "cull_deps_match, cull_preserves_eval) and REFUTED w.r.t. dask.core.get (cull_preserves_get_refuted: a reference "
+              "hidden in a non-task tuple is culled; known findings, same root cause for inline_functions/fuse_linear/fuse). "
+              "Substitution-based passes: subs_preserves_eval (substitution lemma), inline_step_preserves_solutions, "
+              "drop_unreferenced_preserves_values, dag_values_unique, and the PROVED CHECKER fuseOK_sound: if fuseOK accepts "
+              "(input, output, substituted keys, requested keys) then every valuation solving the input's equations solves the "
+              "output's over its own key set and all requested keys are kept; every real output of inline, inline_functions, "
+              "fuse_linear and fuse (parameter grid; rename_keys=False) is passed through the compiled checker on every run "
+              "(translation validation). PARTIAL: outputs with key renaming (rename_keys=True/custom), and the task-spec passes "
+              "(cull, fuse_linear_task_spec, Task.fuse, resolve_aliases, substitute) are validated by evaluation only (requested "
+              "keys present, values equal under dask.core.get, dependency map = get_dependencies of the returned graph).")
 LEVEL_NOTE = ("Trusted: Lean kernel + standard axioms; hand transliteration tied by function-level diff of cull (keys + dependency "
               "map), subs and get_dependencies; every real optimiser output is evaluated with dask.core.get. Fixed in /repo: "
-              "fuse(ave_width=inf) OverflowError; fuse_linear_task_spec with unrenamable (int) keys stored the fused task under None.")
+              "fuse(ave_width=inf) OverflowError; fuse_linear_task_spec with unrenamable (int) keys stored the fused task under None; "
+              "key_split(()) IndexError in fuse renaming.")
 TECHNIQUE = "Lean 4 proof (substitution lemma, reachability closure) + proved checker on real fuse outputs + differential correspondence"
 ASSUMPTIONS = ["user functions are pure and total and left uninterpreted",
                "values are observed with dask.core.get (conversion + execute_graph), as the statement says"]
@@ -146,6 +146,24 @@ def _check_graph(ctx, op, items, dsk, keys, out, deps, want, classes, deps_exact
             ctx.fail(f"{op}: returned dependency map does not match the returned graph", sig=sig, observed=repr(bad))
 
 
+def _checker(ctx, op, items, dsk, out, S, req, classes):
+    """feed a real output of a substitution-based pass to the proved checker `fuseOK`"""
+    if classes:
+        # references hidden in dict values / non-task tuples: the passes are known to be wrong there (findings)
+        ctx.branch("checker-skipped-known-divergence-class")
+        return
+    try:
+        gs = [[to_sexp(k), to_sexp(v)] for k, v in dsk.items()]
+        hs = [[to_sexp(k), to_sexp(v)] for k, v in out.items()]
+        ok = ctx.lean(Sym("fuse_ok"), gs, hs, [to_sexp(k) for k in S], [to_sexp(k) for k in req])
+    except TypeError:
+        return
+    ctx.eq(f"{op}: proved checker fuseOK accepts the real output", ok, True)
+    ctx.branch("fuseOK-" + op)
+    if S:
+        ctx.branch("fuseOK-nontrivial")
+
+
 def _renamer(keys):
     return "R-" + "-".join(str(k) if not isinstance(k, tuple) else "_".join(map(str, k)) for k in keys)
 
@@ -193,6 +211,11 @@ def case_opt(ctx, inp):
             ctx.fail(f"inline raised {type(e).__name__}: {e}")
             continue
         _check_graph(ctx, "inline", items, dsk, keys, g, None, want, classes)
+        from dask.core import get_dependencies, ishashable, istask
+        S = set(ks)
+        if const:
+            S |= {k for k, v in dsk.items() if (ishashable(v) and v in dsk) or (not get_dependencies(dsk, k) and not istask(v))}
+        _checker(ctx, "inline", items, dsk, g, [k for k in dsk if k in S], keys, classes)
         if g != dsk:
             ctx.branch("inline-changes")
     # inline_functions
@@ -203,6 +226,7 @@ def case_opt(ctx, inp):
             ctx.fail(f"inline_functions raised {type(e).__name__}: {e}")
             continue
         _check_graph(ctx, "inline_functions", items, dsk, keys, g, None, want, classes)
+        _checker(ctx, "inline_functions", items, dsk, g, [k for k in dsk if k not in g], keys, classes)
         if len(g) < len(dsk):
             ctx.branch("inline_functions-removes")
     # fuse_linear
@@ -214,6 +238,8 @@ def case_opt(ctx, inp):
                 ctx.fail(f"fuse_linear raised {type(e).__name__}: {e}")
                 continue
             _check_graph(ctx, "fuse_linear", items, dsk, keys, g, d, want, classes, protected=kk is not None)
+            if rk is False:
+                _checker(ctx, "fuse_linear", items, dsk, g, [k for k in dsk if k not in g], keys if kk is not None else [], classes)
             if len(g) != len(dsk):
                 ctx.branch("fuse_linear-fuses")
     # fuse: parameter grid
@@ -231,6 +257,8 @@ def case_opt(ctx, inp):
                              observed=[aw if aw != math.inf else "inf", mw, mh if mh != math.inf else "inf", mdne, str(rk)])
                     continue
                 _check_graph(ctx, "fuse", items, dsk, keys, g, d, want, classes, protected=kk is not None)
+                if rk is False:
+                    _checker(ctx, "fuse", items, dsk, g, [k for k in dsk if k not in g], keys if kk is not None else [], classes)
                 if len(g) != len(dsk):
                     ctx.branch("fuse-fuses")
                 if len(g) > len(dsk):
